@@ -182,9 +182,13 @@ func runC07(x *simkit.Exec) {
 					return
 				}
 				resp, _ := callSeries(ctx, tsdbStore, q)
+				s.Note("tsdb-client q%d -> %d series err=%v", qi, len(resp.Series), resp.Err != nil)
 				if resp.Err != nil {
 					s.Probe("c07.tsdb_series_rejected")
 					continue
+				}
+				if len(resp.Series) > 0 {
+					s.Probe("c07.tsdb_series_nonempty")
 				}
 				checkLabelCoverage(s, ctx, "tsdb-store", tsdbStore, q, resp, func() int64 { return 0 }, func(int64) bool { return false },
 					fmt.Sprintf("store external labels %v\n%s", ds.Blocks[0].Ext, detail))
